@@ -64,6 +64,12 @@ type reqEnv struct {
 	fetcher publicip.Fetcher
 	isnBase uint32
 	closed  bool
+	// specs, when set, are the runs started directly by the check (not through RunTraceroute): a new handle is
+	// bound to the first unclaimed spec that matches its first probe
+	specs   []drive.Spec
+	claimed []bool
+	unregs  []func()
+	peers   map[netip.AddrPort]*drive.SackPeer
 }
 
 // resetProcessState gives the case a clean, janitor-less process-wide cache (entries are stamped with the
@@ -137,9 +143,33 @@ func (r *reqEnv) onEmit(h *simnet.Handle, em *simnet.Emission) {
 			spec.Delay = 10 * time.Millisecond
 			spec.HandshakeTimeout = r.params.Timeout
 		}
+		if r.specs != nil {
+			found := false
+			for i, sp := range r.specs {
+				if r.claimed[i] || sp.V.Proto != v.Proto || sp.V.V6 != v.V6 || sp.Target != em.Pkt.Dst || int(sp.MinTTL) != int(em.Pkt.TTL) {
+					continue
+				}
+				if v.Proto != "icmp" && sp.Port != em.Pkt.DstPort {
+					continue
+				}
+				r.claimed[i] = true
+				spec = sp
+				found = true
+				break
+			}
+			if !found {
+				r.mu.Unlock()
+				r.c.Violate("C11", "unexpected-flow", fmt.Sprintf("a handle sent a %s probe (ttl %d to %s) that matches no started run", v.Name, em.Pkt.TTL, em.Pkt.Dst), nil)
+				return
+			}
+			v = spec.V
+		}
 		fe = &simEnv{c: r.c, w: r.w, spec: spec, peer: r.peer, handle: h, unreg: func() {}}
-		if v.Proto == "sack" && r.peer != nil {
-			fe.isn = r.peer.ISNForPort(em.Pkt.SrcPort)
+		if r.peers != nil {
+			fe.peer = r.peers[netip.AddrPortFrom(spec.Target, spec.Port)]
+		}
+		if v.Proto == "sack" && fe.peer != nil && fe.peer.ISNForPort != nil {
+			fe.isn = fe.peer.ISNForPort(em.Pkt.SrcPort)
 		}
 		r.flows[h.Idx] = fe
 		if r.modelFor != nil {
@@ -172,6 +202,9 @@ func (r *reqEnv) close() {
 	}
 	r.closed = true
 	r.unreg()
+	for _, u := range r.unregs {
+		u()
+	}
 	if r.peer != nil {
 		r.peer.Close()
 	}
